@@ -24,8 +24,8 @@ stralloc *saout;
 stralloc *sain;
 {
  char ch;
- int i;
- int j;
+ unsigned int i;
+ unsigned int j; /* up to 2 * sain->len + 2, which need not fit a signed int */
  unsigned int nlen;
 
  /* make sure the size calculation below does not overflow */
@@ -54,7 +54,7 @@ char *s;
 unsigned int n;
 {
  unsigned char uch;
- int i;
+ unsigned int i;
  if (!n) return 1;
  for (i = 0;i < n;++i)
   {
